@@ -267,6 +267,20 @@ pub const CATALOGUE: &[Fault] = &[
     f("next-mismatch:other-variable", "NEXT ZK7%", &["FOR ZK6% = 1 TO 2", "  ZK5% = 0"], NWF, NB),
     f("next-mismatch:array-element", "NEXT ZA%(1)", &["DIM ZA%(5)", "FOR ZK6% = 1 TO 2", "  ZK5% = 0"], NWF, NB),
     f("next-mismatch:record-field", "NEXT ZR.ZA", &["DIM ZR AS ZT", "FOR ZK6% = 1 TO 2", "  ZK5% = 0"], NWF, NB | T),
+    // ---- more checker diagnostics with one offending statement
+    f("dup-const:of-sub", "CONST ZSb = 1", &[], DUPD, H),
+    f("scope:resume-next-in-sub", "RESUME NEXT", &[], INS, S | SO),
+    f("scope:resume-in-sub", "RESUME", &[], INS, S | SO),
+    f("scope:resume-next-in-function", "RESUME NEXT", &[], INS, S | FO),
+    f("scope:resume-in-function", "RESUME", &[], INS, S | FO),
+    f("type-mismatch-x:for-step", "FOR ZK6% = 1 TO 3 STEP \"a\": NEXT", &[], TM, TAIL),
+    f("type-mismatch-x:for-from", "FOR ZK6% = \"a\" TO 3: NEXT", &[], TM, TAIL),
+    f("type-mismatch-x:for-to", "FOR ZK6% = 1 TO \"b\" STEP 2: NEXT", &[], TM, TAIL),
+    f("type-mismatch-x:dim-lower-bound", "DIM ZB%(\"x\" TO 5)", &[], TM, 0),
+    f("type-mismatch-x:dim-upper-bound", "DIM ZB%(1 TO \"y\")", &[], TM, 0),
+    f("type-mismatch-x:assign-in-parens", "ZQ% = (ZFn%(1, \"b\"))", &[], ATM, S | H),
+    f("argt-builtin-sub:locate-nested", "LOCATE LEN(5), 1", &[], ATM, S),
+    f("argt-builtin-sub:color-nested", "COLOR 1 + VAL(5)", &[], ATM, S),
     // ---- syntax: string literal without closing quote
     f("syntax-string:print", "PRINT \"abc", &[], P, S | TAIL),
     f("syntax-string:assign", "ZQ$ = \"abc", &[], P, S | TAIL),
